@@ -169,7 +169,7 @@ func (env *specEnv) object(obj types.Object, name string) SV {
 				}
 			}
 		}
-		env.fail("variable %s is not available in this contract position", name)
+		env.fail("%s variable %s is not available at this point of the code (the clause names a local or a loop index the code no longer has there)", staleMark, name)
 	case *types.Func:
 		fn := x.prog.FuncValue(o)
 		if fn == nil {
